@@ -1,13 +1,16 @@
 package c19
 
 import (
+	"encoding/json"
 	"fmt"
 	"math"
+	"os"
 	"reflect"
 	"regexp"
 	"sort"
 	"strconv"
 	"strings"
+	"time"
 
 	"github.com/mattn/anko/core"
 	"github.com/mattn/anko/env"
@@ -23,6 +26,14 @@ type uval struct {
 	Src  string             // script expression, or
 	Make func() interface{} // host value bound with Define
 }
+
+// defined (named) types over every basic kind: their type name differs from their kind name
+type (
+	myBool   bool
+	myInt64  int64
+	myFloat  float64
+	myString string
+)
 
 type testStruct struct {
 	A int64
@@ -59,6 +70,27 @@ func universe() []uval {
 		// decimal numerals with leading zeros (base-10 value), and the digits 8/9 after a zero
 		lit(`"0"`), lit(`"010"`), lit(`"0100"`), lit(`"-0755"`), lit(`"00012"`), lit(`"007"`), lit(`"08"`), lit(`"-09"`), lit(`"018"`),
 		lit(`"0b11"`), lit(`"+010"`),
+		// integer numerals around 2^53, 2^62 and the int64 limits: strconv.ParseInt first, ParseFloat only on failure
+		lit(`"9007199254740992"`), lit(`"9007199254740993"`), lit(`"-9007199254740993"`), lit(`"+9007199254740993"`), lit(`"009007199254740993"`),
+		lit(`"4611686018427387904"`), lit(`"4611686018427387905"`), lit(`"-4611686018427387905"`),
+		lit(`"9223372036854775806"`), lit(`"9223372036854775807"`), lit(`"+9223372036854775807"`), lit(`"0009223372036854775807"`),
+		lit(`"-9223372036854775807"`), lit(`"-9223372036854775808"`), lit(`"-9223372036854775809"`), lit(`" 9007199254740993"`), lit(`"9007199254740993 "`),
+		lit(`toString(9007199254740993)`), lit(`toString(9223372036854775807)`),
+		// values of DEFINED types over the basic kinds, from the host ...
+		host("myBool(true)", func() interface{} { return myBool(true) }),
+		host("myInt64(5)", func() interface{} { return myInt64(5) }),
+		host("myFloat(1.5)", func() interface{} { return myFloat(1.5) }),
+		host("myString(ab)", func() interface{} { return myString("ab") }),
+		host("time.Duration(1500000000)", func() interface{} { return 1500 * time.Millisecond }),
+		host("json.Number(12)", func() interface{} { return json.Number("12") }),
+		host("time.Month(3)", func() interface{} { return time.March }),
+		host("os.FileMode(0644)", func() interface{} { return os.FileMode(0o644) }),
+		host("reflect.Kind(Map)", func() interface{} { return reflect.Map }),
+		host("[]time.Duration{1s}", func() interface{} { return []time.Duration{time.Second} }),
+		// ... and produced by script expressions
+		lit(`toDuration(5)`), lit(`import("time").Second`), lit(`import("time").ParseDuration("3s")[0]`),
+		lit(`import("time").March`), lit(`import("time").Friday`), lit(`import("os").ModeDir`),
+		lit(`import("time").Since(import("time").Now())`),
 		lit("[]"), lit("[1, 2]"), lit(`[1, "a", nil, 1.5]`), lit("[[1], []]"), lit(`["a", "b"]`),
 		lit("{}"), lit(`{"a": 1}`), lit(`{"a": 1, "b": "x"}`),
 		host("[]int64{1, 2}", func() interface{} { return []int64{1, 2} }),
@@ -94,7 +126,7 @@ func universeByName(name string) (uval, bool) {
 // element pool of the lists fed to the typed-slice forms
 func elemPool() []uval {
 	names := []string{"nil", "true", "false", "0", "1", "97", "-1", "2147483648", "9223372036854775807",
-		"1.5", "-1.5", "float64(1e300)", "NaN", `""`, `"a"`, `"12"`, `"1.5"`, `"é日"`, `"010"`, `"-0755"`, "[1, 2]", `{"a": 1}`, "[]byte(ab)"}
+		"1.5", "-1.5", "float64(1e300)", "NaN", `""`, `"a"`, `"12"`, `"1.5"`, `"é日"`, `"010"`, `"-0755"`, `"9007199254740993"`, "time.Duration(1500000000)", "[1, 2]", `{"a": 1}`, "[]byte(ab)"}
 	var out []uval
 	for _, n := range names {
 		u, ok := universeByName(n)
@@ -266,14 +298,15 @@ func isContainer(k string) bool {
 
 // string classes for toInt / toFloat
 var (
-	decimalIntRe  = regexp.MustCompile(`^-?[0-9]+$`) // leading zeros are still decimal: "010" denotes ten
+	decimalIntRe  = regexp.MustCompile(`^[+-]?[0-9]+$`) // leading zeros are still decimal: "010" denotes ten; strconv accepts a sign
 	decimalFracs  = map[string]bool{"1.5": true}
-	underDetStrs  = map[string]bool{" 1": true, "0x10": true, "0b11": true, "+010": true, "1e3": true, "9223372036854775808": true}
+	underDetStrs  = map[string]bool{" 1": true, "0x10": true, "0b11": true, "1e3": true, "9223372036854775808": true, "-9223372036854775809": true, " 9007199254740993": true}
 	nonNumericStr = map[string]bool{"": true, "a": true, "abc": true, "é日": true, "true": true, "y": true}
 )
 
-// isDecimalInt: optional minus sign, decimal digits (leading zeros allowed),
-// representable in int64.  An explicit plus sign is left under-determined.
+// isDecimalInt: optional sign, decimal digits (leading zeros allowed),
+// representable in int64: exactly what strconv.ParseInt(s, 10, 64) accepts
+// without underscores.
 func isDecimalInt(s string) bool {
 	if !decimalIntRe.MatchString(s) {
 		return false
@@ -304,6 +337,9 @@ func refToInt(v interface{}) expectation {
 		}
 		return wantValue(int64(rv.Float()))
 	case "string":
+		if rv.Type() != reflect.TypeOf("") {
+			return skip // a defined string type (json.Number): whether it counts as "a string" is not stated
+		}
 		s := rv.String()
 		switch {
 		case isDecimalInt(s):
@@ -338,6 +374,9 @@ func refToFloat(v interface{}) expectation {
 	case "float":
 		return wantValue(float64(rv.Float()))
 	case "string":
+		if rv.Type() != reflect.TypeOf("") {
+			return skip
+		}
 		s := rv.String()
 		switch {
 		case isDecimalInt(s), decimalFracs[s]:
@@ -423,7 +462,7 @@ func stringParamMisuse(k string) bool {
 func refToRune(v interface{}) expectation {
 	k := kindClass(v)
 	if k == "string" {
-		s := v.(string)
+		s := reflect.ValueOf(v).String()
 		if s == "" {
 			return skip // Go: []rune("")[0] does not exist
 		}
@@ -438,7 +477,7 @@ func refToRune(v interface{}) expectation {
 func refToByteSlice(v interface{}) expectation {
 	k := kindClass(v)
 	if k == "string" {
-		return wantValue([]byte(v.(string)))
+		return wantValue([]byte(reflect.ValueOf(v).String()))
 	}
 	if stringParamMisuse(k) {
 		return wantErr
@@ -449,7 +488,7 @@ func refToByteSlice(v interface{}) expectation {
 func refToRuneSlice(v interface{}) expectation {
 	k := kindClass(v)
 	if k == "string" {
-		return wantValue([]rune(v.(string)))
+		return wantValue([]rune(reflect.ValueOf(v).String()))
 	}
 	if stringParamMisuse(k) {
 		return wantErr
@@ -479,7 +518,7 @@ func refRangeArg(v interface{}) expectation {
 	case "bool", "list", "typedslice", "map", "func", "chan", "ptr", "struct", "array":
 		return wantErr
 	case "string":
-		if nonNumericStr[v.(string)] {
+		if nonNumericStr[reflect.ValueOf(v).String()] {
 			return wantErr
 		}
 	}
